@@ -256,6 +256,8 @@ std::string vf_run(const Case &c, vf::Ctx &ctx) {
     rtosc_arg_t aa[2]; aa[0].i = 5; aa[1].s = "z";
     std::vector<char> raw(64, 0);
     rtosc_message(raw.data(), 64, "/raw", "i", 1);
+    std::vector<char> rawbig((size_t)c.tl_maxmsg + 64, 0);
+    rtosc_message(rawbig.data(), rawbig.size(), "/rawbig", "s", big.c_str());
     volatile uint64_t sink = 0;
     Guard g("ThreadLink write/read/hasNext");
     for (int op : c.tl_ops) {
@@ -263,7 +265,7 @@ std::string vf_run(const Case &c, vf::Ctx &ctx) {
         case 0: tl.write("/a", "is", 3, payload.c_str()); tl.writeArray("/b", "is", aa); tl.raw_write(raw.data()); break;
         case 1: if (tl.hasNext()) sink += (uint64_t)tl.read()[0]; break;
         case 2: sink += tl.hasNext() + tl.hasNextLookahead(); break;
-        case 3: tl.write("/big", "s", big.c_str()); break;
+        case 3: tl.write("/big", "s", big.c_str()); tl.raw_write(rawbig.data()); break;   // too long for the link, through both entry points
         default: if (tl.hasNextLookahead()) sink += (uint64_t)tl.read_lookahead()[0]; break;
       }
     }
